@@ -186,6 +186,18 @@ def asserted_dependencies(ix):
             deps.setdefault(name, set()).add(var_prop[nm.id])
     # a value of another property that is dereferenced where no `is None` test of it reaches: that property must be set
     from ..rules import match as _m
+    # (also directly on the getter's result: `element.get_style(P).x`)
+    for nm in own_nodes(comp.node):
+      if isinstance(nm, ast.Attribute) and isinstance(nm.ctx, ast.Load) and isinstance(nm.value, ast.Call) and isinstance(nm.value.func, ast.Attribute) and nm.value.func.attr == "get_style" and nm.value.args:
+        p_ = _prop_name(nm.value.args[0])
+        if p_ and p_ != name:
+          own_absent_ = False
+          for test, pol in _m.reaching_conditions(nm, comp.node):
+            t_ = unparse(test).replace(" ", "")
+            for ov, op_ in var_prop.items():
+              if op_ == name and ((pol and t_ in (f"{ov}isNone", f"not{ov}")) or (not pol and t_ in (f"{ov}isnotNone", ov))):
+                own_absent_ = True
+          (DEREF_DEPS_OWN_ABSENT if own_absent_ else DEREF_DEPS).setdefault(name, set()).add(p_)
     for nm in own_nodes(comp.node):
       if isinstance(nm, ast.Attribute) and isinstance(nm.value, ast.Name) and nm.value.id in var_prop and var_prop[nm.value.id] != name and isinstance(nm.ctx, ast.Load):
         v = nm.value.id
@@ -493,6 +505,20 @@ def check_coverage(ctx):
           on_body = True
         if loop is not None and "iter_regions()" in unparse(loop.iter) and a == unparse(loop.target):
           on_region = True
+  # every region goes through the whole of the region loop: clean-up, repositioning, removal of tts:position and the test for a
+  # similar region are reached on every path of an iteration (no `continue` for regions that look finished already)
+  from ..rules import trav as _trav
+  rloops = [lp for lp in own_nodes(f.node) if isinstance(lp, ast.For) and "iter_regions()" in unparse(lp.iter)
+            and any(isinstance(c, ast.Call) and isinstance(c.func, ast.Attribute) and c.func.attr == "get" and "region" in unparse(c.func.value) for c in own_nodes(lp))]
+  if len(rloops) == 1:
+    lp_ = rloops[0]
+    def _is_bookkeeping(n_):
+      return isinstance(n_, (ast.Assign, ast.Expr)) and any(isinstance(c, ast.Call) and isinstance(c.func, ast.Attribute) and c.func.attr == "get" and "region" in unparse(c.func.value) and "fingerprint" in unparse(c) or
+                                                             (isinstance(c, ast.Call) and isinstance(c.func, ast.Attribute) and c.func.attr == "get" and unparse(c.func.value).endswith("_regions")) for c in ast.walk(n_)) \
+        and getattr(n_, "_parent", None) is lp_
+    _trav.check_loop_reached(ctx, f, _is_bookkeeping, "every region reaches the test for a similar region", rule="COVER", scope=lp_)
+  else:
+    ctx.undecide("COVER", f"{f.qualname}: the loop over the regions that merges similar regions was not found ({len(rloops)} candidates)")
   ctx.check(on_body, "COVER", f"{f.qualname}|animations removed from the body", ctx.where(f.module, f.node),
             "RemoveAnimationFilter is applied to the body", "the LCD filter no longer removes animation steps from the body subtree")
   ctx.check(on_region, "COVER", f"{f.qualname}|animations removed from every region", ctx.where(f.module, f.node),
